@@ -9,6 +9,9 @@ accepted is `C01.establish_complete` / `C02.pay_complete`): the closing signatur
 import ZkVerif.Props.C03
 import ZkVerif.Props.C08
 import ZkVerif.Props.C17
+import ZkVerif.Props.C01
+import ZkVerif.Props.C02
+import ZkVerif.Props.C05
 
 set_option linter.unusedSectionVars false
 
@@ -70,6 +73,97 @@ theorem honest_payment (he : IsPairing F e) (kp : KeyPair F G1 G2) (hk : kp.Hone
   · simp [Customer.start, hp, new, nextState]
   · simp [Customer.lock, honest_closing_verifies he kp hk hg1 hg2 close new d.bfClose u hu]
   · simp [Customer.unlock, honest_token_verifies he kp hk hg1 hg2 new d.bfToken u' hu']
+
+/-! ### The whole protocol: customer, both zero-knowledge proofs and merchant composed -/
+
+variable [DecidableEq G2]
+
+/-- **Establishment completes end to end.**  For every hash function, context, state and customer
+randomness: the honest customer's establish proof is accepted by `initialize`, the closing signature
+the merchant returns is accepted by `complete`, and the pay token `activate` returns is accepted by
+the customer's `activate` — the customer ends `Ready` on the state it started from. -/
+theorem full_establish (he : IsPairing F e) (cd : Codecs F G1 G2) (H : List UInt8 → F)
+    (m : MerchantCfg F G1 G2) (hk : m.kp.Honest) (hg1 : m.kp.pk.g1 ≠ 0) (hg2 : m.kp.pk.g2 ≠ 0)
+    (close : F) (st : CState F) (d : EstDraws F) (ctx : List UInt8) (u u' : F) (hu : u ≠ 0) (hu' : u' ≠ 0)
+    (ht : d.tsS.length = 5) :
+    ∃ σ v tok cs,
+      m.initialize cd H close ⟨st.cid, (st.cb : F), (st.mb : F)⟩
+        (estProve cd H m.kp.pk close st.msg d ctx) ctx u = some (σ, v) ∧
+      (Customer.requested st d.bfC d.bfS).complete e m.kp.pk close σ = (.inactive st d.bfS cs, .accepted) ∧
+      (Customer.inactive st d.bfS cs).activate e m.kp.pk (m.activate u' v) = (.ready st tok cs, .accepted) := by
+  have hc := C01.establish_complete cd H m.kp.pk close st.msg d ctx rfl ht
+  obtain ⟨tok, cs, h1, h2⟩ := honest_establish he m.kp hk hg1 hg2 close st d.bfC d.bfS u u' hu hu'
+  refine ⟨closingReply m.kp close st d.bfC u, commit m.kp.pk.ped1 d.bfS st.msg, tok, cs, ?_, h1, h2⟩
+  unfold MerchantCfg.initialize
+  have hpub : (⟨st.cid, (st.cb : F), (st.mb : F)⟩ : EstPub F) =
+      ⟨st.msg.getD 0 0, st.msg.getD 3 0, st.msg.getD 4 0⟩ := rfl
+  rw [hpub, hc]
+  rfl
+
+/-- the scalar a 64-bit balance is encoded as, after an in-range payment -/
+theorem balance_after (cb mb : Nat) (amount : Int) (hc : cb ≤ 2 ^ 63 - 1) (hm : mb ≤ 2 ^ 63 - 1)
+    (ha : IsI64 amount) (cb' mb' : Nat) (hp : applyPayment cb mb amount = .ok (cb', mb')) :
+    ((cb' : Nat) : F) = (cb : F) - ((amount : Int) : F) ∧ ((mb' : Nat) : F) = (mb : F) + ((amount : Int) : F) := by
+  obtain ⟨h1, h2, _⟩ := C17.apply_payment_ok cb mb amount hc hm ha cb' mb' hp
+  constructor
+  · have : ((cb' : Nat) : F) = (((cb' : Nat) : Int) : F) := (Int.cast_natCast _).symm
+    rw [this, h1]; push_cast; ring
+  · have : ((mb' : Nat) : F) = (((mb' : Nat) : Int) : F) := (Int.cast_natCast _).symm
+    rw [this, h2]; push_cast; ring
+
+/-- **A payment completes end to end.**  For every hash function, context and randomness: from a
+`Ready` customer holding a valid pay token, a payment whose result stays in range runs
+`start` → pay proof accepted by `allow_payment` → closing signature accepted by `lock` → lock message
+accepted by `complete_payment` → pay token accepted by `unlock`, ending `Ready` on the new state. -/
+theorem full_payment (he : IsPairing F e) (cd : Codecs F G1 G2) (H : List UInt8 → F)
+    (m : MerchantCfg F G1 G2) (hk : m.kp.Honest) (hg1 : m.kp.pk.g1 ≠ 0) (hg2 : m.kp.pk.g2 ≠ 0)
+    (close : F) (st : CState F) (tok cs : Sig G1) (amount : Int) (sd : StartDraws F) (d : PayDraws F)
+    (ctx : List UInt8) (u u' : F) (hu : u ≠ 0) (hu' : u' ≠ 0)
+    (hcb : st.cb ≤ 2 ^ 63 - 1) (hmb : st.mb ≤ 2 ^ 63 - 1) (ha : IsI64 amount)
+    (cb' mb' : Nat) (hp : applyPayment st.cb st.mb amount = .ok (cb', mb'))
+    (htok : psVerify e m.kp.pk tok st.msg = true)
+    -- the proof is built with the blinding factors the customer keeps
+    (hb1 : sd.bfRl = d.bfR) (hb2 : sd.bfToken = d.bfS) (hb3 : sd.bfClose = d.bfC)
+    (hrT : d.rT ≠ 0) (hs : m.rp.sigs.length = 128)
+    (hvalid : ∀ k (h : k < m.rp.sigs.length), psVerify e m.rp.pk m.rp.sigs[k] [(k : F)] = true)
+    (hwc : d.cbW.length = 9) (hwm : d.mbW.length = 9)
+    (hrc : ∀ w ∈ d.cbW, w.r ≠ 0) (hrm : ∀ w ∈ d.mbW, w.r ≠ 0) :
+    let new := nextState st sd cb' mb'
+    ∃ b un σ cs' lm τ tok',
+      (Customer.ready st tok cs).start amount sd = (.started new st sd.bfRl sd.bfToken sd.bfClose cs, .ok ()) ∧
+      payBuilders m.payParams close st.msg new.msg tok cb' mb' d = some b ∧
+      m.allowPayment e cd H close ⟨st.nonce, ((amount : Int) : F)⟩
+        (b.respond (challengeOf cd H (b.transcript m.payParams close st.nonce ctx))) ctx u = some (un, σ) ∧
+      (Customer.started new st sd.bfRl sd.bfToken sd.bfClose cs).lock e m.kp.pk close σ =
+        (.locked new sd.bfToken cs', .acceptedLock lm) ∧
+      lm = ⟨st.lock, st.secret, st.index, sd.bfRl⟩ ∧
+      m.completePayment un lm.lock lm.bf u' = .ok τ ∧
+      (Customer.locked new sd.bfToken cs').unlock e m.kp.pk τ = (.ready new tok' cs', .accepted) ∧
+      new.cb = cb' ∧ new.mb = mb' := by
+  intro new
+  obtain ⟨hbc, hbm⟩ := balance_after (F := F) st.cb st.mb amount hcb hmb ha cb' mb' hp
+  obtain ⟨_, _, hc', hm', _⟩ := C17.apply_payment_ok st.cb st.mb amount hcb hmb ha cb' mb' hp
+  obtain ⟨b, hb, hv⟩ := C02.pay_complete he cd H m.payParams close st.msg new.msg tok (cb' : Int) (mb' : Int)
+    ((amount : Int) : F) d ctx rfl rfl rfl (by simp [new, nextState, CState.msg]) (by simp [new, nextState, CState.msg])
+    (by simpa [new, nextState, CState.msg] using hbc) (by simpa [new, nextState, CState.msg] using hbm)
+    htok hrT hs hvalid (by omega) (by omega) (by omega) (by omega) hwc hwm hrc hrm
+  obtain ⟨tok', cs', h1, h2, h3⟩ := honest_payment he m.kp hk hg1 hg2 close st tok cs amount sd u u' hu hu' cb' mb' hp
+  -- the builders' commitments are the customer's commitments to the new state
+  have hC : b.stB.C = commit m.kp.pk.ped1 d.bfS new.msg ∧ b.clB.C = commit m.kp.pk.ped1 d.bfC (new.closeMsg close) ∧
+      b.rlB.C = commit m.rev d.bfR [st.lock] := by
+    unfold payBuilders at hb
+    split at hb
+    · cases hb; exact ⟨rfl, rfl, rfl⟩
+    · cases hb
+  refine ⟨b, ⟨b.rlB.C, b.stB.C⟩, Sig.blindSign m.kp u b.clB.C, cs', _, Sig.blindSign m.kp u' b.stB.C, tok', h1, hb, ?_, ?_, rfl, ?_, ?_, rfl, rfl⟩
+  · unfold MerchantCfg.allowPayment
+    have hn : st.msg.getD 1 0 = st.nonce := rfl
+    rw [hn] at hv
+    rw [hv]
+  · rw [hC.2.1, ← hb3]; exact h2
+  · rw [C05.complete_payment_iff]
+    exact ⟨by rw [hC.2.2, hb1], rfl⟩
+  · rw [hC.1, ← hb2]; exact h3
 
 /-- A payment that would leave the range is refused with the documented error before any message is
 produced, and the customer continues from the unchanged state. -/
